@@ -8,7 +8,7 @@ import os, sys, json, traceback
 def main():
     spec = json.loads(sys.argv[1])
     from . import common, realpool, faults
-    common.import_repo()
+    common.import_repo(scratch=spec["work"])
     from .props import c13
     realpool.N[0] = spec["workers"]
     realpool.SEED[0] = 3
@@ -33,7 +33,8 @@ def main():
             try:
                 c13.invoke(tool, "api" if tool != "whip" else "cli", sb, "abs", outarg)
             except (Exception, SystemExit) as e:
-                raised = f"{type(e).__name__}: {str(e)[:160]}"
+                if not (isinstance(e, SystemExit) and e.code in (0, None)):      # exit status 0 = a normal return
+                    raised = f"{type(e).__name__}: {str(e)[:160]}"
             finally:
                 faults.uninstall()
             out = {"ok": True, "raised": raised, "digest": c13.out_digest(outs),
